@@ -1017,7 +1017,8 @@ func (t *tScreen) showCursor() {
 func (t *tScreen) writeString(s string) {
 	if t.buffering {
 		_, _ = io.WriteString(&t.buf, s)
-	} else {
+	} else if t.tty != nil {
+		// (a screen whose Init found no terminal has nothing to write to)
 		_, _ = io.WriteString(t.tty, s)
 	}
 }
@@ -1025,7 +1026,7 @@ func (t *tScreen) writeString(s string) {
 func (t *tScreen) TPuts(s string) {
 	if t.buffering {
 		t.ti.TPuts(&t.buf, s)
-	} else {
+	} else if t.tty != nil {
 		t.ti.TPuts(t.tty, s)
 	}
 }
@@ -1238,6 +1239,9 @@ func (t *tScreen) Size() (int, int) {
 }
 
 func (t *tScreen) resize() {
+	if t.tty == nil {
+		return
+	}
 	ws, err := t.tty.WindowSize()
 	if err != nil {
 		return
